@@ -72,6 +72,8 @@ pub trait Runtime: Send + Sync {
         _capacity: usize,
     ) {
     }
+    /// `n` > 0 samples or packets were committed to / consumed from a stream.
+    fn moved(&self, _buf: usize, _n: usize) {}
 }
 
 thread_local! {
@@ -113,6 +115,15 @@ pub fn new_buf_id() -> usize {
 pub fn window(buf: usize, kind: WindowKind, open: bool, start: usize, end: usize, cap: usize) {
     if let Some(rt) = current() {
         rt.window(buf, kind, open, start, end, cap);
+    }
+}
+
+/// Report stream activity to the runtime of the calling thread, if any.
+pub fn moved(buf: usize, n: usize) {
+    if n > 0 {
+        if let Some(rt) = current() {
+            rt.moved(buf, n);
+        }
     }
 }
 
